@@ -226,11 +226,28 @@ TRUSTED = [
 ]
 
 
+def all_translators():
+    """Every translator, on every run: a Props or Driver module of any property may import any Gen module, and a
+    generated file left over from another tree (e.g. a seeded worktree) must never be what a theorem is checked
+    against.  Each translator rewrites its file only when the content changes; all of them take about 2 s."""
+    import importlib
+    import pkgutil
+
+    import translate
+
+    out = []
+    for m in sorted(pkgutil.iter_modules(translate.__path__), key=lambda m: m.name):
+        mod = importlib.import_module("translate." + m.name)
+        if hasattr(mod, "generate"):
+            out.append(mod.generate)
+    return out
+
+
 def prove(ctx, mod):
     """Translate, build, audit.  Fills ctx.proof.  Never raises for a broken proof."""
     pid = ctx.pid
     gen_err = None
-    for g in getattr(mod, "GEN", []):
+    for g in all_translators():
         try:
             g()
         except Exception:
